@@ -57,7 +57,7 @@ def _solve_one(ob, timeout_ms, seed):
         if rel and len(rel) < len(ob.hyps):
             for opts_ in ({"smt.mbqi": False}, {}):
                 s = z3.Solver()
-                s.set("timeout", max(1000, int(timeout_ms * 0.1)))
+                s.set("timeout", max(1000, int(timeout_ms * 0.05)))
                 for k_, v_ in opts_.items():
                     s.set(k_, v_)
                 for h in rel:
@@ -65,6 +65,19 @@ def _solve_one(ob, timeout_ms, seed):
                 s.add(z3.Not(ob.goal))
                 if s.check() == z3.unsat:
                     return {"verdict": "proved", "time": time.time() - t_start, "backend": "z3 (hypotheses about the goal's specification functions only)"}
+    if not ground:
+        # cone of influence for quantified queries too: hypotheses that share no symbol with the goal even transitively (two rounds, applications of
+        # uninterpreted functions counted as single symbols) only slow E-matching down (E4-decoded-iff: 0.1 s without three unrelated ones, 10 s with)
+        rel = _relevant(ob.hyps, ob.goal, 2)
+        if 0 < len(rel) < len(ob.hyps):
+            qc = abstract_query(rel, ob.goal)
+            if qc is not None:
+                s = z3.Solver()
+                s.set("timeout", max(1000, int(timeout_ms * 0.15)))
+                s.set("smt.mbqi", False)
+                s.add(*qc)
+                if s.check() == z3.unsat:
+                    return {"verdict": "proved", "time": time.time() - t_start, "backend": "z3-euf(strings abstracted) smt.mbqi=False, cone of influence"}
     if not ground and not _has_quantifier([ob.goal]):
         # a quantifier-free goal (typically a peeled last element).  First the usual E-matching attempt on everything, then the
         # goal from the quantifier-free hypotheses alone (dropping hypotheses is sound for proving): EUF, then native strings.
@@ -79,6 +92,24 @@ def _solve_one(ob, timeout_ms, seed):
             if s.check() == z3.unsat:
                 return {"verdict": "proved", "time": time.time() - t_start, "backend": "z3-euf (quantifier-free hypotheses, strings abstracted)"}
         q0 = _aq(ob.hyps, ob.goal)
+        # order: a SHORT E-matching attempt (most proofs take well under a second), then the native solvers on the cone of quantifier-free hypotheses
+        # (string / recursive-definition goals such as flatten's prefix clause are found there in about a second), then the long E-matching attempts
+        if q0 is not None:
+            s = z3.Solver()
+            s.set("timeout", max(1000, int(timeout_ms * 0.06)))
+            s.set("smt.mbqi", False)
+            s.add(*q0)
+            if s.check() == z3.unsat:
+                return {"verdict": "proved", "time": time.time() - t_start, "backend": "z3-euf(strings abstracted) smt.mbqi=False"}
+        for depth, share in ((0, 0.08), (2, 0.08)):
+            rel = _relevant(gh, ob.goal, depth)
+            s = z3.Solver()
+            s.set("timeout", max(1000, int(timeout_ms * share)))
+            for h in rel:
+                s.add(h)
+            s.add(z3.Not(ob.goal))
+            if s.check() == z3.unsat:
+                return {"verdict": "proved", "time": time.time() - t_start, "backend": f"z3 (quantifier-free hypotheses, cone depth {depth})"}
         if q0 is not None:
             for opts_, share_ in (({"smt.mbqi": False}, 0.25), ({"smt.mbqi": False, "smt.qi.eager_threshold": 100.0}, 0.15)):
                 s = z3.Solver()
@@ -88,15 +119,7 @@ def _solve_one(ob, timeout_ms, seed):
                 s.add(*q0)
                 if s.check() == z3.unsat:
                     return {"verdict": "proved", "time": time.time() - t_start, "backend": "z3-euf(strings abstracted) " + ",".join(f"{k_}={v_}" for k_, v_ in opts_.items())}
-        for depth, share in ((0, 0.1), (2, 0.1)):
-            rel = _relevant(gh, ob.goal, depth)
-            s = z3.Solver()
-            s.set("timeout", max(1000, int(timeout_ms * share)))
-            for h in rel:
-                s.add(h)
-            s.add(z3.Not(ob.goal))
-            if s.check() == z3.unsat:
-                return {"verdict": "proved", "time": time.time() - t_start, "backend": f"z3 (quantifier-free hypotheses, cone depth {depth})"}
+        rel = _relevant(gh, ob.goal, 2)
         if _has_strings(rel + [ob.goal]):
             # z3's sequence solver is unstable on word equations with optional pieces; cvc5 decides them (child process under a hard kill)
             r5 = _cvc5(ob, max(1.0, timeout_ms * 0.15 / 1000.0), hyps=rel, only_unsat=True)
